@@ -70,6 +70,7 @@ UNIT = {
             'cname': 'DependencyKeyIDs_index', 'requires': V + ['n < self->keys.len'], 'assigns': [],
             'ensures': [('P:C01,P:C03,P:C02', 'RESULT.keyID._value == self->keys.ptr[n]._value && (RESULT.orderOnly != 0) == ((self->flags.ptr[n] & 1) != 0) && (RESULT.singleUse != 0) == (((self->flags.ptr[n] >> 1) & 1) != 0)')]},
         'DependencyKeyIDs::cleanSingleUseDependencies': {
+            'refute_unwind': 6,
             'requires': ['__CPROVER_is_fresh(self, sizeof(*self))', 'VEC_OKN(self->keys, struct KeyID, ND)', 'VEC_OKN(self->flags, uint8_t, ND)', 'self->keys.len == self->flags.len', 'g_n0 == self->keys.len',
                          ' && '.join('(%d < g_n0 ==> (g_k0[%d] == self->keys.ptr[%d]._value && g_f0[%d] == self->flags.ptr[%d]))' % (k, k, k, k, k) for k in range(4))],
             'assigns': ['self->keys.len', 'self->flags.len', '__CPROVER_object_whole(self->keys.ptr)', '__CPROVER_object_whole(self->flags.ptr)'],
